@@ -531,6 +531,13 @@ func observeC04(c *Case, in *PacketIn, dst []byte, inplace int) {
 		spare = c.R.Pick(1, 7, 300, 2000)
 		c.Tag("dst=window-with-spare-capacity")
 	}
+	// a zero-length destination is a literal nil slice half of the time (`var scratch []byte`: the
+	// lazy-sizing idiom starts with it), an empty non-nil slice otherwise: both are "shorter than
+	// MarshalSize()" whenever that is positive
+	nilDst := len(dst) == 0 && wire0 == nil && c.R.Bool()
+	if nilDst {
+		c.Tag("dst=nil")
+	}
 	// in place: the array holds the whole wire image (the receiver is decoded from it) also when the
 	// destination window is shorter; what lies beyond the window must stay as it was all the same
 	var beyond []byte
@@ -546,6 +553,9 @@ func observeC04(c *Case, in *PacketIn, dst []byte, inplace int) {
 			arena[i] = 0xC3
 		}
 		beyond = cloneBytes(arena[len(dst):])
+		if nilDst {
+			return nil, arena
+		}
 		return arena[:len(dst)], arena
 	}
 	intact := func(arena []byte) bool { return bytes.Equal(arena[len(dst):], beyond) }
